@@ -57,6 +57,9 @@ type MQ struct {
 	log           []MQRecord
 	closed        bool
 	closedCB      func(error)
+	// SubWindow, if set, is called inside Subscribe (no lock of the MQ held)
+	// before it returns: see Sched.Window.
+	SubWindow func(namespace string)
 	// DuringClose, if set, is run (once, on a goroutine of its own) when
 	// Close is entered: the adapter's listener may still be delivering a
 	// message while the client is being closed.
@@ -200,7 +203,6 @@ func (m *MQ) Subscribe(namespace string, cb mq.Response) (mq.Unsubscriber, error
 		return nil, mq.ErrSubjectTooLong
 	}
 	m.mu.Lock()
-	defer m.mu.Unlock()
 	if m.closed {
 		m.UseAfterClose++
 	}
@@ -210,6 +212,13 @@ func (m *MQ) Subscribe(namespace string, cb mq.Response) (mq.Unsubscriber, error
 	m.log = append(m.log, MQRecord{"SUB", namespace, "", s.Time})
 	for _, h := range m.onSub {
 		h(namespace, true)
+	}
+	win := m.SubWindow
+	m.mu.Unlock()
+	// a Subscribe call takes time on a real connection: a scenario may let
+	// another actor run a closure while this call is in progress
+	if win != nil {
+		win(namespace)
 	}
 	return unsubscriber{s}, nil
 }
